@@ -90,6 +90,15 @@ CHECKS = {
              "library whose inlining thresholds differ; all are compared with the reference model, which never inlines or simplifies.",
         note="Trusted: reference model. The always-inline build bounds caller growth (6x / 1500 insns) to keep nested call chains finite.",
         design="3/C04"),
+    "C20": dict(
+        technique=TECH + "differential execution: gcc-compiled mir2c translation of generated programs vs MIR_interp (and the reference model) on "
+                         "results, memory, data section and external-call order; translator run under a watchdog and an ASan/assert build",
+        text="Generated single-result programs (h/prog.h) are translated by MIR_module2c; the translation unit must be accepted by gcc (-O1 -fwrapv "
+             "-fno-strict-aliasing), is loaded as a shared object and called on 6 input pairs; every observable must equal the interpreter's. "
+             "A translator that does not terminate, aborts or emits C the compiler rejects is a violation with its own fingerprint.",
+        note="Trusted: gcc as the reference compiler with wrap-around signed arithmetic; lref data items are not generated (mir2c has no C form "
+             "for them - recorded in DESIGN.md as outside what the property's 'well-defined single-result modules' list names).",
+        design="3/C20"),
     "C14": dict(
         technique=TECH + "layout/content oracle recomputed from the declarations, read from the live process after load+link",
         text="Generated modules of 3-40 data-like items (every element type, lengths incl. 0, named/anonymous mixtures, sections interrupted by "
